@@ -89,32 +89,40 @@ def crash_signature(prop, stderr_text):
 
 
 class Outcome:
-    def __init__(self, kind, signature="", message="", text=""):
-        self.kind = kind  # "pass" | "fail" | "crash"
+    def __init__(self, kind, signature="", message="", text="", subject=""):
+        self.kind = kind  # "pass" | "fail" | "crash" | "hang"
         self.signature = signature
         self.message = message
         self.text = text
+        self.subject = subject
 
 
-def replay_text(exe, prop, config, text, workdir, timeout=60):
+def replay_text(exe, prop, config, text, workdir, timeout=60, allow_known=None):
     os.makedirs(workdir, exist_ok=True)
     path = os.path.join(workdir, "replay-%d.prog" % os.getpid())
     with open(path, "w") as f:
         f.write(text)
+    m = re.search(r"^# allow-known=(\S+)", text, re.M)
+    if m and allow_known is None:
+        allow_known = m.group(1)
     try:
         r = subprocess.run([exe, "--prop", prop, "--config", config, "--replay", path],
-                           capture_output=True, text=True, env=env_for(), timeout=timeout,
-                           errors="replace")
+                           capture_output=True, text=True,
+                           env=env_for(dict({"VF_ECHO_SUBJECT": "1"},
+                                            **({"VF_ALLOW_KNOWN": allow_known} if allow_known else {}))),
+                           timeout=timeout, errors="replace")
     except subprocess.TimeoutExpired:
         # a single case normally takes milliseconds; not finishing within the (generous) timeout
         # is reported as a hang and has to reproduce 3x like everything else
         return Outcome("hang", prop + "|hang", "replay did not finish within %ds" % timeout, text)
+    ms = re.search(r"REPLAY subject=(\S+)", r.stdout) or re.search(r"^VF-SUBJECT (\S+)", r.stderr, re.M)
+    subj = ms.group(1) if ms else ""
     if r.returncode == 0:
-        return Outcome("pass", message=r.stdout)
+        return Outcome("pass", message=r.stdout, subject=subj)
     if r.returncode == 1:
         m = re.search(r"FAIL signature=(.*)\n(.*)", r.stdout)
-        return Outcome("fail", m.group(1) if m else prop + "|?", m.group(2) if m else r.stdout, text)
-    return Outcome("crash", crash_signature(prop, r.stderr), r.stderr[-3000:], text)
+        return Outcome("fail", m.group(1) if m else prop + "|?", m.group(2) if m else r.stdout, text, subj)
+    return Outcome("crash", crash_signature(prop, r.stderr), r.stderr[-3000:], text, subj)
 
 
 def split_program(text):
@@ -278,12 +286,14 @@ def write_evidence(prop, tier, level, coverage, wall, violations, assumptions):
     os.replace(path + ".tmp", path)
 
 
-def save_violation(prop, text, signature, message):
+def save_violation(prop, text, signature, message, subject=""):
     d = os.path.join(OUT, prop)
     os.makedirs(d, exist_ok=True)
     h = hashlib.sha1(text.encode()).hexdigest()[:12]
     p = os.path.join(d, "violation-%s.prog" % h)
     with open(p, "w") as f:
+        if subject and "# subject=" not in text:
+            f.write("# subject=%s\n" % subject)  # pins the subject by name (see vf.hpp Program::hint)
         f.write(text)
         f.write("# signature: %s\n" % signature)
         for line in message.strip().splitlines()[:12]:
